@@ -102,7 +102,27 @@ class WriteResult:
         self.fin_errors = []
 
 
+HANGS = {"n": 0, "active": False}   # non-terminations seen by this worker; after three, phases are no longer
+# executed there (only inside pool workers: confirmation / minimisation / replay always execute)
+
+
 def write_phase(scn, crash_at=None, log=None, items=None) -> WriteResult:
+    from .steps import WallLimit, StepBudgetExceeded
+    if HANGS["active"] and HANGS["n"] >= 3:
+        r = WriteResult()
+        r.error = ("DidNotTerminate", "not executed: three earlier runs in this process did not terminate")
+        return r
+    try:
+        with WallLimit(20.0):
+            return _write_phase(scn, crash_at, log, items)
+    except StepBudgetExceeded as ex:
+        HANGS["n"] += 1
+        r = WriteResult()
+        r.error = ("DidNotTerminate", str(ex)[:200])
+        return r
+
+
+def _write_phase(scn, crash_at=None, log=None, items=None) -> WriteResult:
     m = sut.load()
     res = WriteResult()
     if items is None:
@@ -228,6 +248,22 @@ class ReadResult:
 
 
 def read_phase(scn, image, log=None, storage="sim", limit=None) -> ReadResult:
+    from .steps import WallLimit, StepBudgetExceeded
+    if HANGS["active"] and HANGS["n"] >= 3:
+        r = ReadResult()
+        r.end, r.err_text = "foreign:DidNotTerminate", "not executed: three earlier runs in this process did not terminate"
+        return r
+    try:
+        with WallLimit(20.0):
+            return _read_phase(scn, image, log, storage, limit)
+    except StepBudgetExceeded as ex:
+        HANGS["n"] += 1
+        r = ReadResult()
+        r.end, r.err_text = "foreign:DidNotTerminate", str(ex)[:200]
+        return r
+
+
+def _read_phase(scn, image, log=None, storage="sim", limit=None) -> ReadResult:
     m = sut.load()
     res = ReadResult()
     blocked = scn["blocked"]
